@@ -19,6 +19,7 @@ inductive Ev
   | poll (k : Nat) (o : PollOut)
   | dropF (k : Nat) | dropNone (k : Nat) | edrop (k : Nat)
   | suspend | yieldNow | fin | taskCancel | woken | abort | panic
+  | setTask (n : Nat) | setTaskSkip (n : Nat)
   -- `Subtask` trait callbacks (instrumented implementation) and ledger
   | lower (k : Nat) | callImport (k st h : Nat)
   | deallocLists (k : Nat) | deallocListsOwn (k : Nat) | lift (k : Nat)
@@ -46,6 +47,7 @@ def Ev.toTok : Ev → String
   | .poll k .pend => s!"P{k}=pend" | .poll k .ready => s!"P{k}=ready" | .poll k .none => s!"P{k}=none"
   | .dropF k => s!"drop{k}" | .dropNone k => s!"drop{k}:none" | .edrop k => s!"edrop{k}"
   | .suspend => "w" | .yieldNow => "y" | .fin => "fin" | .taskCancel => "X" | .woken => "woken" | .abort => "abort" | .panic => "panic"
+  | .setTask n => s!"task{n}" | .setTaskSkip n => s!"task{n}:skip"
   | .lower k => s!"lower{k}" | .callImport k st h => s!"call{k}={st}:{h}"
   | .deallocLists k => s!"dl{k}" | .deallocListsOwn k => s!"dlo{k}" | .lift k => s!"lift{k}"
   | .free k => s!"free{k}" | .rdrop k => s!"rdrop{k}" | .pdrop k => s!"pdrop{k}"
@@ -107,6 +109,7 @@ def Ev.ofTok (tok : String) : Ev :=
     | "woken", [] => some .woken
     | "abort", [] => some .abort
     | "panic", [] => some .panic
+    | "task", [n] => if rs == s!"{n}" then some (.setTask n) else if endsWith rest ":skip".toList then some (.setTaskSkip n) else none
     | "lower", [k] => some (.lower k)
     | "call", [k, st, h] => some (.callImport k st h)
     | "dl", [k] => some (.deallocLists k)
